@@ -1,6 +1,7 @@
 package harness
 
 import (
+	"bytes"
 	"encoding/hex"
 	"encoding/json"
 	"fmt"
@@ -642,6 +643,23 @@ func checkReported(r *cfgRun, pc PCfg, inputs InputSet) {
 	}
 	if p.BufferConfig() != c.BufConfig() {
 		r.fail("reported-config|buffer-differs", "BufferConfig() = %+v, configuration has %+v", p.BufferConfig(), c.BufConfig())
+	}
+	// what the parser reports must not change when it is used: Reset with a caller slice that has spare
+	// capacity, Reset(nil), and handing the parser to Wrap
+	if B := c.BufConfig().BufferSize; B < 1<<16 {
+		if err := p.Reset(make([]byte, 1, B+64)); err == nil {
+			if !reflect.DeepEqual(p.ParserConfig(), c) || p.BufferConfig() != c.BufConfig() {
+				r.fail("reported-config|changed-by-reset", "after Reset with a slice of capacity %d the parser reports %+v / %+v, it was created from %+v", B+64, p.ParserConfig(), p.BufferConfig(), c)
+			}
+			p.Reset(nil)
+			if !reflect.DeepEqual(p.ParserConfig(), c) || p.BufferConfig() != c.BufConfig() {
+				r.fail("reported-config|changed-by-reset", "after Reset(data) and Reset(nil) the parser reports %+v / %+v, it was created from %+v", p.ParserConfig(), p.BufferConfig(), c)
+			}
+		}
+	}
+	lz.Wrap(bytes.NewReader(nil), p)
+	if !reflect.DeepEqual(p.ParserConfig(), c) || p.BufferConfig() != c.BufConfig() {
+		r.fail("reported-config|changed-by-wrap", "after Wrap(reader, parser) the parser reports %+v / %+v, it was created from %+v", p.ParserConfig(), p.BufferConfig(), c)
 	}
 	inputs.Each(func(in []byte) {
 		a, errA := parseAll(c, in)
